@@ -49,7 +49,8 @@ def _child_batch(fn, items, wfd, wall, reset):
         for n, (i, arg) in enumerate(items):
             try:
                 faulthandler.cancel_dump_traceback_later()
-                faulthandler.dump_traceback_later(wall + 5, exit=True)
+                if not os.environ.get("VERIF_NO_WATCHDOG"):
+                    faulthandler.dump_traceback_later(wall + 5, exit=True)
             except Exception:
                 pass
             t0 = time.monotonic()
